@@ -17,7 +17,7 @@ def pinned_selftests(ctx, base_cfg, fixes):
     out = []
     for fix, inv, what in fixes:
         src = open(os.path.join(vlib.SPEC, base_cfg)).read().replace("%s = TRUE" % fix, "%s = FALSE" % fix)
-        name = "_selftest_%s.cfg" % fix
+        name = "_selftest_%s_%d.cfg" % (fix, os.getpid())          # unique: two checks may run at the same time
         with open(os.path.join(vlib.SPEC, name), "w") as fh:
             fh.write(src)
         try:
